@@ -39,6 +39,13 @@ impl<'a> Parsed<'a> {
     }
 
     pub fn evaluate(&self, data: &'a Value) -> Result<Evaluated, Error> {
+        #[cfg(jsonlogic_rs_verif)]
+        let _verif_guard = match self {
+            Self::Operation(op) => crate::verif::enter("eager", op.verif_symbol()),
+            Self::LazyOperation(op) => crate::verif::enter("lazy", op.verif_symbol()),
+            Self::DataOperation(op) => crate::verif::enter("data", op.verif_symbol()),
+            Self::Raw(_) => crate::verif::enter("raw", ""),
+        };
         match self {
             Self::Operation(op) => op.evaluate(data),
             Self::LazyOperation(op) => op.evaluate(data),
